@@ -128,52 +128,116 @@ Fixpoint build (p : pt) (en : env) (mm : mmap) (t : top) {struct p} : top :=
   | For ms i a b s body =>
       pop (fold_left (fun t v => build body (upd en i (Zc v)) mm t) (range_vals a b s en)
                      (push (eval_decls ms en mm) t))
-  | Map pm mml b => build b (menv pm en) (mcomp mml mm) t
+  | Map pm mml _ b => build b (menv pm en) (mcomp mml mm) t
   | Rev b =>
       time_reversed (match b with Single x => build x en mm fresh | _ => build b en mm fresh end) t
   | Single b => new_subprogram (build b en mm fresh) t
   | Pass b => build b en mm t
   end.
 
-(* ---- which assignments the code rejects (ValueError / ParameterNotIntegerException / ...): evaluated in the order
-   the code reaches the declarations; only reached declarations that are not mapped to nothing are checked ---------- *)
+(* ---- volatile repetition counts ------------------------------------------------------------------------------------- *)
+(* create_program(..., volatile=V) under en, then VolatileRepetitionCount.update_volatile_dependencies on every volatile
+   loop so that the counts are those of en2 (en2 differs from en only on V, and V occurs only in repetition counts -
+   the code refuses volatile parameters anywhere else): the tree is the one built under en (offsets of own windows,
+   mirrored windows and flattened subprograms were fixed at build time) with the repetition counts of en2. *)
+Fixpoint buildv (p : pt) (en en2 : env) (mm : mmap) (t : top) {struct p} : top :=
+  match p with
+  | Atom _ _ _ | Multi _ _ | Arith _ _ _ =>
+      if plays p en then append (leaf (tdur p en)) (add_meas (adecls p en mm) t) else t
+  | Seq ms subs =>
+      pop ((fix go (ss : list pt) (t : top) : top :=
+              match ss with [] => t | s :: r => go r (buildv s en en2 mm t) end) subs (push (eval_decls ms en mm) t))
+  | Rep ms c b =>
+      if (0 <? rep_count c en)%nat
+      then with_repetition (rep_count c en2) (eval_decls ms en mm) (buildv b en en2 mm fresh) t
+      else t
+  | For ms i a b s body =>
+      pop (fold_left (fun t v => buildv body (upd en i (Zc v)) (upd en2 i (Zc v)) mm t) (range_vals a b s en)
+                     (push (eval_decls ms en mm) t))
+  | Map pm mml _ b => buildv b (menv pm en) (menv pm en2) (mcomp mml mm) t
+  | Rev b =>
+      time_reversed (match b with Single x => buildv x en en2 mm fresh | _ => buildv b en en2 mm fresh end) t
+  | Single b => new_subprogram (buildv b en en2 mm fresh) t
+  | Pass b => buildv b en en2 mm t
+  end.
+Definition updated_program (p : pt) (en en2 : env) (mm : mmap) : option loop := to_program (buildv p en en2 mm fresh).
+
+(* ---- which assignments the code rejects, and with which kind of error: the FIRST failing check in the order the
+   code performs them (validate_scope of a MappingPT, count / range evaluation, the node's own declarations, then the
+   parts; an atomic node builds its waveform first and evaluates the declarations only when it has one).  Only
+   reached declarations that are not mapped to nothing are checked; the code never compares a window with the
+   duration of its node (a window that sticks out of its node is accepted). ------------------------------------------- *)
+Inductive rkind :=
+| KConstraint        (* ParameterConstraintViolation *)
+| KNegWindow         (* ValueError: begin < 0 or length < 0 (MeasurementDefiner.get_measurement_windows) *)
+| KCountNotInt       (* ParameterNotIntegerException (RepetitionPT) *)
+| KRangeNotInt       (* ValueError from checked_int_cast (ForLoopPT range) *)
+| KStepZero          (* ValueError from range(.., .., 0) *)
+| KAtomicDur.        (* the waveform constructor of an atomic composite refuses (unequal durations, ...) *)
+
+Definition orelse (a b : option rkind) : option rkind := match a with Some k => Some k | None => b end.
+Fixpoint first_err (l : list (option rkind)) : option rkind :=
+  match l with [] => None | Some k :: _ => Some k | None :: r => first_err r end.
+Definition guard_k (b : bool) (k : rkind) : option rkind := if b then None else Some k.
+
 Definition decl_ok (en : env) (mm : mmap) (d : decl) : bool :=
   match d with (n, b, l) =>
     match mm n with None => true | Some _ => Qcleb 0 (eval b en) && Qcleb 0 (eval l en) end end.
 Definition decls_ok (ms : list decl) (en : env) (mm : mmap) : bool := forallb (decl_ok en mm) ms.
+Definition decls_chk (ms : list decl) (en : env) (mm : mmap) : option rkind := guard_k (decls_ok ms en mm) KNegWindow.
 
 Fixpoint adecls_ok (p : pt) (en : env) (mm : mmap) : bool :=
   match p with
   | Atom _ _ ms => decls_ok ms en mm
   | Multi ms subs => decls_ok ms en mm && forallb (fun s => adecls_ok s en mm) subs
   | Arith ms l r => decls_ok ms en mm && adecls_ok l en mm && adecls_ok r en mm
-  | Map pm mml b => adecls_ok b (menv pm en) (mcomp mml mm)
+  | Map pm mml _ b => adecls_ok b (menv pm en) (mcomp mml mm)
   | _ => false
   end.
-Fixpoint valid (p : pt) (en : env) (mm : mmap) {struct p} : bool :=
+(* build_waveform of an atomic tree: parts first (in order), then the composite's own waveform constructor *)
+Fixpoint awf_chk (p : pt) (en : env) : option rkind :=
   match p with
-  | Atom _ _ _ | Multi _ _ | Arith _ _ _ =>
-      is_atomic p && adur_ok p en && (if plays p en then adecls_ok p en mm else true)
-  | Seq ms subs => decls_ok ms en mm && forallb (fun s => valid s en mm) subs
-  | Rep ms c b =>
-      is_int (eval c en) &&
-      (if (0 <? rep_count c en)%nat then decls_ok ms en mm && valid b en mm else true)
-  | For ms i a b s body =>
-      is_int (eval a en) && is_int (eval b en) && is_int (eval s en) && negb (qfloor (eval s en) =? 0)%Z
-      && decls_ok ms en mm && forallb (fun v => valid body (upd en i (Zc v)) mm) (range_vals a b s en)
-  | Map pm mml b => valid b (menv pm en) (mcomp mml mm)
-  | Rev b => valid b en mm
-  | Single b => valid b en mm
-  | Pass b => valid b en mm
+  | Atom _ _ _ => None
+  | Multi _ subs =>
+      orelse (first_err (map (fun s => awf_chk s en) subs))
+             (guard_k (forallb (fun s => negb (plays s en) || Qceqb (tdur s en) (tdur p en)) subs) KAtomicDur)
+  | Arith _ l r =>
+      orelse (awf_chk l en) (orelse (awf_chk r en)
+             (guard_k (negb (plays l en) || negb (plays r en) || Qceqb (tdur l en) (tdur r en)) KAtomicDur))
+  | Map pm _ cs b => orelse (guard_k (forallb (pcon_ok en) cs) KConstraint) (awf_chk b (menv pm en))
+  | _ => Some KAtomicDur
   end.
 
-Inductive result := Rejected | NoProgram | Program (l : loop).
+Fixpoint check (p : pt) (en : env) (mm : mmap) {struct p} : option rkind :=
+  match p with
+  | Atom _ _ _ | Multi _ _ | Arith _ _ _ =>
+      orelse (awf_chk p en) (if plays p en then guard_k (adecls_ok p en mm) KNegWindow else None)
+  | Seq ms subs => orelse (decls_chk ms en mm) (first_err (map (fun s => check s en mm) subs))
+  | Rep ms c b =>
+      orelse (guard_k (is_int (eval c en)) KCountNotInt)
+             (if (0 <? rep_count c en)%nat then orelse (decls_chk ms en mm) (check b en mm) else None)
+  | For ms i a b s body =>
+      orelse (guard_k (is_int (eval a en) && is_int (eval b en) && is_int (eval s en)) KRangeNotInt)
+     (orelse (guard_k (negb (qfloor (eval s en) =? 0)%Z) KStepZero)
+     (orelse (decls_chk ms en mm)
+             (first_err (map (fun v => check body (upd en i (Zc v)) mm) (range_vals a b s en)))))
+  | Map pm mml cs b =>
+      orelse (guard_k (forallb (pcon_ok en) cs) KConstraint) (check b (menv pm en) (mcomp mml mm))
+  | Rev b => check b en mm
+  | Single b => check b en mm
+  | Pass b => check b en mm
+  end.
+Definition valid (p : pt) (en : env) (mm : mmap) : bool := match check p en mm with None => true | Some _ => false end.
+
+Inductive result := Rejected (k : rkind) | NoProgram | Program (l : loop).
 
 (* PulseTemplate.create_program *)
 Definition create_program (p : pt) (en : env) (mm : mmap) : result :=
-  if valid p en mm then
+  match check p en mm with
+  | Some k => Rejected k
+  | None =>
     match to_program (build p en mm fresh) with
     | None => NoProgram
     | Some root => Program root
     end
-  else Rejected.
+  end.
